@@ -34,4 +34,4 @@ Extraction "model.ml"
   show_json_path show_key_paths float_placeholder safe_path leaf_path no_floats concat_w delete_by_name_w
   delete_by_index_w array_insert_w build_array_w build_object_w build_array_st build_object_st object_insert_w
   object_delete_w object_pick_w strip_nulls_w delete_by_keypath_w contains_w array_distinct_w array_intersection_w
-  array_except_w array_overlap_w.
+  array_except_w array_overlap_w key_safe_doc.
